@@ -416,7 +416,8 @@ def rule_I2(ctx):
     st = "smpl_extract/structural.py"
     sl = ctx.fn(st, "ExportManager.set_level", "I2")
     es = ctx.fn(st, "ExportManager.export_samples", "I2")
-    ok = "self.samples.clear()" in full(sl) and "self.samples.clear()" in full(es)
+    from .util import every_path_calls as _epi
+    ok = _epi(ctx, sl, "I2", "self.samples.clear()") and _epi(ctx, es, "I2", "self.samples.clear()")
     ctx.ob("I2", es, "the exporter's sample list is cleared when a level starts and after it was exported (no sample is exported twice)", ok, "", inst="ExportManager:clear")
     # lazily cached single objects
     for path, q, attr, maker in ((AK + "file_entry.py", "FileEntry.file", "self._file", "self._f_file_content"), (AK + "partition.py", "Partition.sat", "self._sat", "self._f_sat")):
@@ -480,7 +481,9 @@ def rule_I3(ctx):
     ok = not (used & {"ExportManager", "export_samples", "export_wav", "export_samples_to_wav", "open", "makedirs", "finish_level", "add_sample"})
     ctx.ob("I3", la, "ls never reaches the exporter", ok, "", inst="ls-no-export")
     di = ctx.fn("smpl_extract/actions.py", "determine_image_type", "I3")
-    ok = "open(file, 'rb')" in full(di)
+    from .util import path_call_keys as _pki
+    opens_ = [k_ for ks_ in _pki(ctx, di, "I3", include_exc=True, limit=8000) for k_ in ks_ if k_.startswith("open(")]
+    ok = bool(opens_) and all(k_ == f"open({di.args.args[0].arg},'rb')" for k_ in opens_)
     ctx.ob("I3", di, "the image file is opened read-only", ok, "", inst="image-open-rb")
     ctx.fact("I3", "sites", n)
 
